@@ -42,7 +42,7 @@ def directed(rng: random.Random) -> dict:
             {"k": "label", "n": "after2"}, {"k": "data", "d": "dl", "es": [E("after2"), E("after1")]}]
     outer = rng.choice([0x10, 0xFF, 0x100, 0x1234, 0x12345])
     kind = rng.choice(["const_then_inner_label", "const_then_inner_sym", "const_then_inner_const", "param_then_label", "loopvar_then_sym",
-                       "agreeing_shadow", "backward_label", "const_plain", "text_before_inner_table", "big_incbin", "position_from_symbol_set_twice", "spliced_label_in_braces", "text_with_escaped_quote"])
+                       "agreeing_shadow", "backward_label", "const_plain", "text_before_inner_table", "big_incbin", "position_from_symbol_set_twice", "spliced_label_in_braces", "text_with_escaped_quote", "braces_around_an_include", "byte_operand_where_only_a_word_form_exists"])
     if kind == "text_before_inner_table":
         t1 = [["41", "a"], ["42", "b"], ["43", "c"]]
         t2 = [["0141", "a"], ["0242", "b"], ["030303", "c"], ["04", "ab"]]
@@ -54,6 +54,21 @@ def directed(rng: random.Random) -> dict:
         body = [{"k": "org", "e": E(start)}, {"k": "table", "f": "narrow.tbl"}, {"k": "text", "t": "ab"}, st] + ([{"k": "call", "n": "mtxt", "as": []}] * 2 if wrap == "macro" else []) + \
                [{"k": "text", "t": "ca"}] + tail
         return {"prog": body, "files": {}, "tables": {"narrow.tbl": t1, "wide.tbl": t2}, "rom": "low", "family": "directed:" + kind}
+    if kind == "braces_around_an_include":
+        # `{ .include 'lib.s' }`: the braces keep the file's labels to themselves, a label of the same name outside stays where its bytes are
+        nop = {"k": "ins", "m": "nop", "shape": "imp", "sz": "", "e": None}
+        lib = [{"k": "label", "n": "foo"}, nop, {"k": "data", "d": "dl", "es": [E("foo")]}, {"k": "label", "n": "libq"}, nop]
+        inc = {"k": "include", "f": "libq.s", "b": lib}
+        wrapped = rng.choice([{"k": "block", "b": [inc]}, {"k": "block", "b": [{"k": "block", "b": [inc]}]}, {"k": "scope", "n": "nsq", "b": [inc]}, {"k": "block", "b": [inc, nop]}])
+        body = [{"k": "org", "e": E(start)}, {"k": "label", "n": "foo"}, nop, wrapped, {"k": "data", "d": "dl", "es": [E("foo")]}] + tail
+        return {"prog": body, "files": {}, "tables": {}, "rom": "low", "family": "directed:" + kind}
+    if kind == "byte_operand_where_only_a_word_form_exists":
+        # `lda 0x10,y` has no direct-page form: whatever the assembler makes of it, what it sizes is what it emits (or it refuses)
+        mm = rng.choice(["lda", "sta", "adc", "and", "eor", "ora", "cmp", "sbc", "ldx", "stx"])
+        shp = rng.choice(["dir_y", "dir_y", "dir_x", "dir"])
+        opnd = rng.choice([E(0x10), E("zpq"), E(0xFF)])
+        body = [{"k": "org", "e": E(start)}, {"k": "assign", "n": "zpq", "e": E(0x12)}, {"k": "ins", "m": mm, "shape": shp, "sz": "", "e": opnd}] + tail
+        return {"prog": body, "files": {}, "tables": {}, "rom": "low", "family": "directed:" + kind}
     if kind == "spliced_label_in_braces":
         # a block argument that defines a label, expanded several times, each expansion in braces of its own: every label is where its bytes go
         nop = {"k": "ins", "m": "nop", "shape": "imp", "sz": "", "e": None}
